@@ -266,6 +266,18 @@ class BoundMethod:
         self.name = name
 
 
+class LinOp:
+    """An opaque linear operator; ``op @ x`` is either a fresh complex atom or
+    whatever the ``apply`` callback returns."""
+
+    def __init__(self, name, apply=None):
+        self.name = name
+        self.apply = apply
+
+    def __repr__(self):
+        return f"<linop {self.name}>"
+
+
 class Opaque:
     def __init__(self, desc=""):
         self.desc = desc
@@ -308,6 +320,9 @@ class Interp:
         self._depth = 0
         self.ext_overrides: Dict[str, Callable] = {}
         self.func_overrides: Dict[str, Callable] = {}
+        self.branch_policy: Optional[Callable] = None
+        self.frames: Dict[str, Frame] = {}
+        self.branch_log: List[str] = []
         self.site_fields: Dict[str, Field] = {}
         self.on_setattr: Optional[Callable] = None
 
@@ -481,6 +496,10 @@ class Interp:
             return SparseM(out, None, "csr")
         if isinstance(a, SparseM):
             return self.matvec(a, b)
+        if isinstance(a, LinOp):
+            if a.apply is not None:
+                return a.apply(self, b)
+            return self.T.app(f"apply[{a.name}]", [self.as_term(b)], kind="complex")
         raise Unsupported(f"matmul of {a!r} and {b!r}")
 
     def matvec(self, m: SparseM, v):
@@ -905,6 +924,7 @@ class Interp:
                 if p not in env:
                     raise Unsupported(f"missing argument {p} for {fi.fq}")
             fr = Frame(fi, fi.module, env, parent=closure)
+            self.frames[fi.fq] = fr
             try:
                 self.exec_block(fi.node.body, fr)
             except _Return as r:
@@ -999,6 +1019,8 @@ class Interp:
 
     def x_builtins_isinstance(self, a, k):
         v, c = a
+        if isinstance(c, ModRef) and c.dotted in ("numpy.ndarray", "cupy.ndarray"):
+            return c.dotted == "numpy.ndarray" and isinstance(v, (Rat, Field, Vec2, Concat, Idx))
         if isinstance(c, ClassInfo) and isinstance(v, Obj) and v.cls is not None:
             return c in self.repo.mro(v.cls)
         if isinstance(v, Obj):
@@ -1188,6 +1210,9 @@ class Interp:
     def x_scipy_sparse_linalg_factorized(self, a, k):
         return Obj(None, {"of": a[0]}, label="factorized")
 
+    def x_numpy_errstate(self, a, k):
+        return Opaque("errstate")
+
     def x_warnings_catch_warnings(self, a, k):
         return Opaque("catch_warnings")
 
@@ -1223,8 +1248,20 @@ class Interp:
         raise _Return(self.eval(s.value, fr) if s.value is not None else None)
 
     def s_If(self, s, fr):
-        t = self.truth(self.eval(s.test, fr))
+        try:
+            t = self.truth(self.eval(s.test, fr))
+        except Unsupported:
+            t = self.branch_policy(s.test, fr) if self.branch_policy else None
+            if t is None:
+                raise
+            self.branch_log.append(f"{ast.unparse(s.test)} := {t}")
         self.exec_block(s.body if t else s.orelse, fr)
+
+    def s_Try(self, s, fr):
+        # normal path only: exceptional paths are the CFG rules' business
+        self.exec_block(s.body, fr)
+        self.exec_block(s.orelse, fr)
+        self.exec_block(s.finalbody, fr)
 
     def s_With(self, s, fr):
         for it in s.items:
